@@ -185,6 +185,7 @@ Proof.
   pose proof (w_run_sinv opt seg meta ops Hm Hops0 Hq0) as S0. fold w0 in S0.
   destruct (w_run_dir opt seg meta (ops ++ [o]) ltac:(now rewrite <- Hw)) as (Hi & Hg & Hcl). rewrite <- Hw in *.
   destruct (w_run_dir opt seg meta ops Hq0) as (Hi0 & _ & _). fold w0 in Hi0.
+  pose proof (w_run_ts opt seg meta (ops ++ [o])) as Hts. rewrite <- Hw in Hts. specialize (Hts Hq).
   pose proof (ti_tail _ _ _ (si_t _ _ _ S)) as Htail.
   pose proof (ti_ok _ _ _ (si_t _ _ _ S)) as Hok.
   set (recs := recs_of meta (ops ++ [o])) in *.
@@ -193,7 +194,7 @@ Proof.
   (* the image *)
   unfold w_files. rewrite Hcl. cbn [app set_last_bytes].
   rewrite final_single by (cbn [sg_idx tail_file]; exact Hi).
-  cbn [sg_bytes tail_file] in *. rewrite Hg in *. rewrite Htail in *.
+  cbn [sg_bytes tail_file] in *. rewrite Hts in *. rewrite Htail in *.
   set (z := seg - blen (fst (encode_all 0 recs))) in *.
   destruct (trunc_image_decodes recs z c Hok Hz Hc Hnc) as (recs1 & recs2 & v & Hsplit & Hdec & Hnext & Hv & Hpre).
   set (b := img_trunc c (fst (encode_all 0 recs) ++ zeros z)) in *.
